@@ -6,6 +6,7 @@ import (
 	"context"
 	"encoding/json"
 	"fmt"
+	"sort"
 	"strings"
 	"time"
 
@@ -37,6 +38,9 @@ type R struct {
 type Scn struct {
 	Routes []R    `json:"routes"`
 	Mode   string `json:"mode,omitempty"` // matcher read pattern
+	// Rev: matcher sets are built with their matchers in descending instead of ascending id
+	// order (production order is Go's map iteration order: both are explored)
+	Rev bool `json:"rev,omitempty"`
 	// set only in replay files / samples:
 	Stream string `json:"stream,omitempty"`
 	FIN    bool   `json:"fin,omitempty"`
@@ -149,8 +153,31 @@ func routeVariants(full, withSub bool) []R {
 
 func scenarios(tier string, yield func(any) bool) {
 	modes := []string{"full", "peek", "one", "drain"}
+	hasAnd := func(rs []R) bool {
+		var rec func(rs []R) bool
+		rec = func(rs []R) bool {
+			for _, r := range rs {
+				for _, set := range r.Sets {
+					if len(set) > 1 {
+						return true
+					}
+				}
+				if rec(r.Sub) {
+					return true
+				}
+			}
+			return false
+		}
+		return rec(rs)
+	}
 	emit := func(rs []R, i int) bool {
-		return yield(&Scn{Routes: rs, Mode: modes[i%len(modes)]})
+		if !yield(&Scn{Routes: rs, Mode: modes[i%len(modes)]}) {
+			return false
+		}
+		if hasAnd(rs) { // the other order of the matchers inside an AND-set
+			return yield(&Scn{Routes: rs, Mode: modes[i%len(modes)], Rev: true})
+		}
+		return true
 	}
 	n := 0
 	if !emit([]R{}, n) {
@@ -262,7 +289,24 @@ type built struct {
 	cancel context.CancelFunc
 }
 
+func needID(m layer4.ConnMatcher) string {
+	switch t := m.(type) {
+	case *hm.Need:
+		return t.ID
+	}
+	return fmt.Sprintf("~%T", m)
+}
+
 func build(sc *Scn) *built {
+	layer4.VerifSetOrder = func(ms layer4.MatcherSet) layer4.MatcherSet {
+		sort.SliceStable(ms, func(i, j int) bool {
+			if sc.Rev {
+				return needID(ms[i]) > needID(ms[j])
+			}
+			return needID(ms[i]) < needID(ms[j])
+		})
+		return ms
+	}
 	var rl layer4.RouteList
 	if err := json.Unmarshal(hm.J(routesJSON(sc.Routes, "", sc.Mode)), &rl); err != nil {
 		panic(err)
@@ -578,7 +622,7 @@ func main() {
 		Assumptions: []string{
 			"matchers are the harness's pure prefix matchers (need k bytes, compare) in four read styles, plus the real 'not' and 'subroute' modules",
 			"time is abstracted: a read with an armed deadline may time out at any point (choice), one without data and without deadline blocks forever",
-			"two matchers in one AND-set need the same number of bytes (Go map iteration order of a matcher set is unspecified)",
+			"two matchers in one AND-set need the same number of bytes; the order of the matchers inside a set (Go map iteration order in production) is decided by the harness through a hook in MatcherSets.FromInterface and both orders are explored",
 		},
 		Bounds: func(tier string) map[string]any {
 			return map[string]any{"read_deviations": "unbounded", "timeout_deviations": 1, "stream_alphabet": "ab", "max_stream_len": map[string]int{"quick": 4, "thorough": 5}[tier]}
